@@ -230,7 +230,14 @@ impl<
         &self,
         timestamp: Timestamp,
     ) -> Result<&shared::TzifLocalTimeType, &PosixTimeZone<ABBREV>> {
-        let timestamp = timestamp.as_second();
+        // N.B. `as_second` truncates toward zero, but transitions apply to
+        // the instant rounded down to the nearest second. These only differ
+        // for negative timestamps with a non-zero fractional second.
+        let timestamp = if timestamp.subsec_nanosecond() < 0 {
+            timestamp.as_second().saturating_sub(1)
+        } else {
+            timestamp.as_second()
+        };
         // This is guaranteed because we always push at least one transition.
         // This isn't guaranteed by TZif since it might have 0 transitions,
         // but we always add a "dummy" first transition with our minimum
@@ -389,8 +396,10 @@ impl<
         ts: Timestamp,
     ) -> Option<TimeZoneTransition> {
         assert!(!self.timestamps().is_empty(), "transitions is non-empty");
+        // Round up to the nearest second. Since `as_second` truncates toward
+        // zero, it has already rounded up for negative fractional seconds.
         let mut timestamp = ts.as_second();
-        if ts.subsec_nanosecond() != 0 {
+        if ts.subsec_nanosecond() > 0 {
             timestamp = timestamp.saturating_add(1);
         }
         let search = self.timestamps().binary_search(&timestamp);
@@ -443,7 +452,12 @@ impl<
         ts: Timestamp,
     ) -> Option<TimeZoneTransition> {
         assert!(!self.timestamps().is_empty(), "transitions is non-empty");
-        let timestamp = ts.as_second();
+        // Round down to the nearest second. Since `as_second` truncates toward
+        // zero, negative fractional seconds need an adjustment.
+        let mut timestamp = ts.as_second();
+        if ts.subsec_nanosecond() < 0 {
+            timestamp = timestamp.saturating_sub(1);
+        }
         let search = self.timestamps().binary_search(&timestamp);
         let index = match search {
             Ok(i) => i.checked_add(1)?,
